@@ -3,7 +3,7 @@
 
   prepare()        the function with its module-level helpers inlined (engines/inline.py; a tuple-unpacking call `a, b = h(..)` is first split
                    into `t = h(..); a = t[0]; b = t[1]`), so an extracted helper is analysed as if it had stayed in place
-  embedded()       the execute-style calls of a module with their SQL text; a text held in a module-level constant or in a variable of an
+  embedded()       the execute-style calls of a module (of the prepared function, for a module returned by prepare()) with their SQL text; a text held in a module-level constant or in a variable of an
                    enclosing function is followed (engines/sqlfront.py only follows locals of the calling function)
   rows_of()        the rows an `execute_many` receives: the element tuple, the for-loops / comprehension generators that produce it and the
                    conditions under which a row is left out - for a comprehension, a generator expression, or a list that is created empty and
@@ -70,7 +70,7 @@ def _split_unpacking_calls(fn: FuncDef, helpers: Dict[str, FuncDef]) -> None:
     fn.body = block(fn.body)
 
 
-def prepare(m: pf.Module, target: str, nested: bool = False) -> Tuple[pf.Module, FuncDef, inline.Inliner]:
+def prepare(m: pf.Module, target: str, nested: bool = False, exclude: Sequence[str] = ()) -> Tuple[pf.Module, FuncDef, inline.Inliner]:
     """Copy of the module in which the module-level function `target` has its module-level helper calls inlined.  Only the target function
     is copied (it is the only thing rewritten); the other top-level nodes are shared with the original module and never modified (the
     inliner copies a helper's body for every expansion)."""
@@ -80,7 +80,7 @@ def prepare(m: pf.Module, target: str, nested: bool = False) -> Tuple[pf.Module,
         body.append(copy.deepcopy(st) if isinstance(st, (ast.FunctionDef, ast.AsyncFunctionDef)) and st.name == target else st)
     tree = ast.Module(body=body, type_ignores=[])
     m2 = pf.Module(m.rel, m.path, m.src, tree)
-    helpers = {f.name: f for f in tree.body if isinstance(f, (ast.FunctionDef, ast.AsyncFunctionDef)) and f.name != target}
+    helpers = {f.name: f for f in tree.body if isinstance(f, (ast.FunctionDef, ast.AsyncFunctionDef)) and f.name != target and f.name not in exclude}
     fn = m2.func(target)
     _split_unpacking_calls(fn, helpers)
     il = inline.Inliner(helpers, None, 3)
@@ -91,17 +91,26 @@ def prepare(m: pf.Module, target: str, nested: bool = False) -> Tuple[pf.Module,
             if isinstance(sub, (ast.FunctionDef, ast.AsyncFunctionDef)) and sub is not fn:
                 _split_unpacking_calls(sub, helpers)
                 il.run(sub)
+    # parent map: the shared nodes keep the parents they have in the original module, only the copied function is walked
+    par = dict(m.parents())
+    for st in tree.body:
+        par[st] = tree
+    for p_ in ast.walk(fn):
+        for c_ in ast.iter_child_nodes(p_):
+            par[c_] = p_
+    m2._parents = par
+    m2._scope = fn  # type: ignore[attr-defined]   (embedded() looks at the prepared function only: everything else is the original module)
     return m2, fn, il
 
 
-_prepared: Dict[Tuple[str, str, bool], Tuple[pf.Module, FuncDef, inline.Inliner]] = {}
+_prepared: Dict[Tuple[Any, ...], Tuple[pf.Module, FuncDef, inline.Inliner]] = {}
 
 
-def prepared(m: pf.Module, target: str, nested: bool = True) -> Tuple[pf.Module, FuncDef, inline.Inliner]:
-    """prepare(), remembered per (module, function)."""
-    k = (m.path, target, nested)
+def prepared(m: pf.Module, target: str, nested: bool = True, exclude: Sequence[str] = ()) -> Tuple[pf.Module, FuncDef, inline.Inliner]:
+    """prepare(), remembered per (module, function, helpers left alone)."""
+    k = (m.path, target, nested, tuple(exclude))
     if k not in _prepared:
-        _prepared[k] = prepare(m, target, nested)
+        _prepared[k] = prepare(m, target, nested, exclude)
     return _prepared[k]
 
 
@@ -139,7 +148,7 @@ def embedded(m: pf.Module) -> List[sf.Embedded]:
     if hit is not None:
         return hit
     out: List[sf.Embedded] = []
-    for node in ast.walk(m.tree):
+    for node in ast.walk(getattr(m, '_scope', None) or m.tree):
         if isinstance(node, ast.Call) and isinstance(node.func, ast.Attribute) and node.func.attr in sf.EXEC_METHODS and node.args:
             recv = pf.dotted(node.func.value) or pf.nsrc(node.func.value)
             fn = m.enclosing_func(node)
@@ -1055,7 +1064,7 @@ class Submission:
     def rows(self, table: str) -> Rows:
         if table not in self._rows:
             e, _ = self.need_insert(table)
-            self._rows[table] = rows_of(self.m, e.fn, e.call.args[1] if len(e.call.args) > 1 else None)
+            self._rows[table] = rows_of(self.m, e.fn, cf.args_node(e.call))
         return self._rows[table]
 
     def colmap(self, table: str) -> Dict[str, ast.expr]:
